@@ -127,6 +127,10 @@ func (t *BaseTraveler) GetCurrent() *DataElement {
 }
 
 func (t *BaseTraveler) GetCurrentID() string {
+	if t.Current == nil {
+		// a traveler left without a current element by a null-producing step
+		return ""
+	}
 	return t.Current.ID
 }
 
